@@ -3,7 +3,9 @@
 (* C19: two runs on the same abstract document, concretised differently.   *)
 (*   Variant == [rendering, schemas, paths, props]                         *)
 (*     rendering \in {"json","jsonSorted","yamlBlock","yamlFlow",         *)
-(*                    "yamlBareKeys","yamlCapBool"}  (sorted keys; bare    *)
+(*                    "yamlBareKeys","yamlMixedKeys","yamlCapBool"}        *)
+(*                    (sorted keys; number-like keys written bare - all of *)
+(*                    them, or every other one next to quoted neighbours;  *)
 (*                    numeric status keys; booleans written True/False)    *)
 (*     schemas / paths / props \in {"id","rev","rot"} (how the entries of  *)
 (*     components.schemas, paths, and each object's properties are         *)
